@@ -18,14 +18,44 @@ CLAIM = {
              "(finding F12, negation theorem C02_fileorder_false, witness replayed on the real code every run). The model is tied "
              "to /repo by the process correspondence stream (assertions at every posting position, on multi-commodity accounts, "
              "after inferred and assigned amounts, `= 0`, negative balances), and the reference semantics recomputes every prefix "
-             "balance independently."),
-    "note": ("modelled, not verified: rust_decimal (exact rationals), the parser (model and oracle consume the implementation's tree), "
+             "balance independently. TEXT level (Lemmas/BookText2,3,5 + Props/C02Text: the parser MODEL - validated against "
+             "parse_ledger by C05/C06/C14, not proved equal to it - composed with `process`; every statement quantifies over ledger "
+             "texts with no hypothesis about the parser): C02_text_holds (in every accepted text, right after every posting line "
+             "that carries an amount and `= X`, the canonical account of the account written holds the evaluation of the X written: "
+             "exactly, or nothing for `= 0`), C02_text_holds_after (it still does when the transaction has been booked, provided no "
+             "later line and no bare line of the transaction names an account resolving to it), C02_text_reject (a text whose k-th "
+             "entry has, at line j, an assertion false of the balance before the line plus the amount written is rejected: process "
+             "= err (k, BalanceAssertionFailure j computed diff), text not accepted; C02_text_reject_sum: the same with the computed "
+             "balance spelt out as ledger sum of the earlier transactions + file-order sum of what lines 0..j-1 booked + the amount "
+             "written), the file-order reading over texts "
+             "C02_text_fileorder_stmt kept visible with its decidable form C02_text_fileorder_iff, its negation "
+             "C02_text_fileorder_false (F12 witness as a TEXT `A` / `A  5 USD = 5 USD`) and C02_text_running_fileorder / "
+             "C02_text_fileorder_partial / _partial_zero (whenever every bare line of the transaction comes after line j or names "
+             "another account, the balance right after line j IS, in every commodity, the sum over the earlier transactions plus "
+             "lines 0..j of the final transaction; hence the file-order statement for `= v C` and for `= 0`). Parser facts "
+             "needed are proved from the parser model for every text: posting_readFrom (every parsed posting was returned by the "
+             "posting parser on a suffix of the text), posting_written / text_written (`balance = some X` iff the line has `=`, "
+             "blanks and a text the expression parser reads as X at that place; `amount = none` iff nothing but `=`, `;`, a line end "
+             "or the end of text stands where the amount would). NOT proved: equality of the parser model with the Rust parser "
+             "(correspondence-checked by C05/C06/C14)."),
+    "note": ("modelled, not verified: rust_decimal (exact rationals); the correspondence stream and the oracle consume the implementation's tree, the text-level theorems use the parser model (Model/Parse.lean, tied to the real parser by C05/C06/C14), "
              "aliases/includes are covered by C12/C11's own checks; the posting an error points at is recovered from the span in the error value."),
     "design_ref": "DESIGN.md section 6, C02",
 }
 
 THEOREMS = ["Okane.C02_holds", "Okane.C02_reject", "Okane.C02_diff", "Okane.C02_invariant", "Okane.C02_fileorder_partial",
-            "Okane.C02_fileorder_false", "Okane.assertFails_false_iff", "Okane.step_balance"]
+            "Okane.C02_fileorder_false", "Okane.assertFails_false_iff", "Okane.step_balance",
+            # text level (Lemmas/BookText2,3,5; audited through Props/C02Text.lean, which Props/C02.lean cannot import)
+            "Okane.BookText.C02_text_holds", "Okane.BookText.C02_text_holds_after", "Okane.BookText.C02_text_reject",
+            "Okane.BookText.C02_text_reject_sum", "Okane.BookText.prefix_sum",
+            "Okane.BookText.C02_text_fileorder_iff", "Okane.BookText.C02_text_fileorder_false",
+            "Okane.BookText.C02_text_fileorder_partial", "Okane.BookText.C02_text_fileorder_partial_zero",
+            "Okane.BookText.C02_text_running_fileorder", "Okane.BookText.f12Text_accepted",
+            "Okane.BookText.loopSyntax_split", "Okane.BookText.resolvePosting_ok", "Okane.BookText.loopSyntax_resolved",
+            "Okane.BookText.txnRun_of_accepted", "Okane.BookText.loopSyntax_frame",
+            "Okane.BookText.posting_readFrom", "Okane.BookText.posting_written", "Okane.BookText.text_written",
+            "Okane.C02Text.reject_hyps_of_check", "Okane.C02Text.rejectSum_hyps_of_check", "Okane.C02Text.after_hyps_of_check"]
+EXTRA_IMPORTS = ["Okane.Props.C02Text"]
 
 FLAVORS = ["assert", "assert-false", "assert-cost", "cancel-assert", "assign", "assign-zero", "omitted", "multi-omitted", "plain", "expr"]
 
@@ -55,7 +85,7 @@ def run(chk):
                 "(omitted posting's account re-asserted later in the same transaction) is generated only by accident, classified by "
                 "a decidable predicate and excluded from the file-order oracle; non-trivial = accepted or rejected by a book-keeping rule")
     chk.assumptions = ["rust_decimal is exact on the generated values", "parser outside this check"]
-    if not standard_prologue(chk, THEOREMS):
+    if not standard_prologue(chk, THEOREMS, imports=EXTRA_IMPORTS):
         return
     replay_f12(chk)
     n = 2500 if chk.tier == "quick" else 60000
